@@ -33,7 +33,17 @@ func (pass *DisjunctionWithNullToOptional) Process(schemas []*ast.Schema) ([]*as
 	return visitor.VisitSchemas(schemas)
 }
 
-func (pass *DisjunctionWithNullToOptional) processDisjunction(_ *Visitor, _ *ast.Schema, def ast.Type) (ast.Type, error) {
+func (pass *DisjunctionWithNullToOptional) processDisjunction(visitor *Visitor, schema *ast.Schema, def ast.Type) (ast.Type, error) {
+	// process the disjunctions nested in the branches first
+	for i, branch := range def.Disjunction.Branches {
+		visitedBranch, err := visitor.VisitType(schema, branch)
+		if err != nil {
+			return ast.Type{}, err
+		}
+
+		def.Disjunction.Branches[i] = visitedBranch
+	}
+
 	disjunction := def.AsDisjunction()
 
 	if len(disjunction.Branches) != 2 || !disjunction.Branches.HasNullType() {
